@@ -18,7 +18,7 @@ import (
 // C04 — tampered, mis-addressed or foreign-database entries are never merged.
 
 var c04Fields = []string{"payload", "clock.time", "clock.id", "next.add", "next.drop", "refs.add", "key.other", "key.garbage", "sig.flip", "sig.empty",
-	"identity.id", "identity.publicKey", "identity.sig.id", "identity.sig.publicKey", "identity.type", "logid", "v", "hash", "sibling"}
+	"identity.id", "identity.publicKey", "identity.sig.id", "identity.sig.publicKey", "identity.type", "logid", "logid.slash", "logid.noprefix", "logid.dot", "logid.case", "v", "hash", "sibling"}
 
 type CaseC04 struct {
 	Type    string     `json:"type"`
@@ -187,6 +187,14 @@ func execC04(c CaseC04) *Outcome {
 		m.Identity.Type = "orbitdb2"
 	case "logid":
 		m.LogID = cl.Addr + "x"
+	case "logid.slash": // other spellings of this database's own address are still not its log id
+		m.LogID = cl.Addr + "/"
+	case "logid.noprefix":
+		m.LogID = strings.TrimPrefix(cl.Addr, "/orbitdb/")
+	case "logid.dot":
+		m.LogID = strings.Replace(cl.Addr, "/orbitdb/", "/orbitdb/./", 1)
+	case "logid.case":
+		m.LogID = strings.ToUpper(cl.Addr)
 	case "v":
 		m.V = 1
 	case "hash", "sibling":
